@@ -39,11 +39,23 @@ class Capture(logging.Handler):
         self.lines.append(json.loads(text))
 
 
-class Tap:
-    """Wraps the in-process HTTP client: remembers every POST and what it caused."""
+TOKEN_KEY = b"verif-interp-token-key-0123456789"
 
-    def __init__(self, inner: Any) -> None:
+
+class Tap:
+    """Wraps the in-process HTTP client: remembers every POST and what it caused.
+
+    other : a second app instance sharing token_key; every request that is not an /init goes there (a cold worker:
+            the call-state cache of that process never saw the stream's /init, the client's call token is reopened)
+    evict : before every /exchange request the stream's own /init body is replayed with the access logger silenced;
+            with a call-state cache of one entry this evicts the stream (another stream was opened in between)
+    """
+
+    def __init__(self, inner: Any, other: Any = None, evict: bool = False) -> None:
         self._inner = inner
+        self._other = other
+        self._evict = evict
+        self._last_init: Any = None
         self.prefix = getattr(inner, "prefix", "")
         self.posts: list[dict[str, Any]] = []
         self.count: Any = lambda: 0
@@ -52,16 +64,33 @@ class Tap:
     def post(self, url: str, *, content: bytes, headers: dict[str, str]) -> Any:
         from urllib.parse import urlparse
 
+        path = urlparse(url).path
+        target = self._inner
+        if path.endswith("/init"):
+            self._last_init = (url, content, dict(headers))
+        elif path.endswith("/exchange"):
+            if self._other is not None:
+                target = self._other
+            if self._evict and self._last_init is not None:
+                lg = logging.getLogger(ACCESS)
+                lvl = lg.level
+                lg.setLevel(logging.CRITICAL)
+                try:
+                    with contextlib.redirect_stderr(io.StringIO()):
+                        u, c, h = self._last_init
+                        self._inner.post(u, content=c, headers=h)
+                finally:
+                    lg.setLevel(lvl)
         n0 = len(interp.CALLS)
         r0 = self.count()
         # Falcon prints the traceback of an unhandled exception to wsgi.errors (= sys.stderr at call time): keep it
         self.stderr = io.StringIO()
         with contextlib.redirect_stderr(self.stderr):
-            r = self._inner.post(url, content=content, headers=headers)
+            r = target.post(url, content=content, headers=headers)
         hdrs = {k.lower(): v for k, v in dict(r.headers).items()}
         self.posts.append(
             {
-                "path": urlparse(url).path,
+                "path": path,
                 "status": r.status_code,
                 "rpc_error": hdrs.get("x-vgi-rpc-error", "").lower() == "true",
                 "ctype": hdrs.get("content-type", ""),
@@ -89,18 +118,53 @@ def setup() -> None:
     _READY = True
 
 
+CACHE_MODES = ("warm", "nocache", "cold", "evict")
+
+
 def http_tap(cfg: dict[str, Any]) -> Tap:
-    """The (cached) tapped client for an HTTP configuration."""
+    """The (cached) tapped client for an HTTP configuration.
+
+    cfg["c34_cache"]: warm (default: one app, default call-state cache) | nocache (call_state_cache_entries=0) |
+    cold (continuations go to a second app sharing token_key) | evict (one-entry cache, the entry is evicted before
+    every continuation).  interp.open_transport ignores the extra key but caches the client under it.
+    """
     c = {**interp.HTTP_DEFAULT, **cfg}
     key = json.dumps(c, sort_keys=True)
     cur = interp._HTTP_CLIENTS.get(key)
     if isinstance(cur, Tap):
         return cur
-    if cur is None:
-        with interp.open_transport("http", cfg):
-            pass
-        cur = interp._HTTP_CLIENTS[key]
-    tap = Tap(cur)
+    mode = c.get("c34_cache", "warm")
+    if mode == "warm":
+        if cur is None:
+            with interp.open_transport("http", cfg):
+                pass
+            cur = interp._HTTP_CLIENTS[key]
+        tap = Tap(cur)
+    else:
+        from vgi_rpc.http._testing import make_sync_client
+
+        assert c["compression"] is None and not c["externalize"], "cache modes are run uncompressed, without externalisation"
+
+        def mk(entries: int) -> Any:
+            return make_sync_client(
+                interp.get_server(False),
+                token_key=TOKEN_KEY,
+                max_response_bytes=c["max_response_bytes"],
+                compression_level=None,
+                enable_landing_page=False,
+                enable_describe_page=False,
+                enable_not_found_page=False,
+                call_state_cache_entries=entries,
+            )
+
+        if mode == "nocache":
+            tap = Tap(mk(0))
+        elif mode == "cold":
+            tap = Tap(mk(4096), other=mk(4096))
+        elif mode == "evict":
+            tap = Tap(mk(1), evict=True)
+        else:
+            raise ValueError(f"unknown cache mode {mode!r}")
     interp._HTTP_CLIENTS[key] = tap
     return tap
 
